@@ -17,9 +17,15 @@ package main
 import (
 	"bytes"
 	"fmt"
+	"math/rand"
+	"os"
+	"path/filepath"
+	"regexp"
 	"sort"
 	"strconv"
 	"strings"
+	"sync"
+	"sync/atomic"
 	"time"
 
 	"github.com/trzsz/trzsz-go/trzsz"
@@ -29,6 +35,7 @@ func init() {
 	groups["pausedown"] = genPauseDown
 	groups["pausedowncomp"] = genPauseDownComp
 	groups["pauseprobe"] = genPauseProbe
+	groups["pausesend"] = genPauseSend
 }
 
 type c18bEv struct {
@@ -411,5 +418,435 @@ func genPauseProbe(c *ctx) {
 			sqArg = "-"
 		}
 		c.emit(pausedInProbe, "pp_probe", bs(r.rel)+","+bs(r.ini), sqArg)
+	}
+}
+
+// ---------------------------------------------------------------------------------------------
+// pausesend: the REAL pipelineSendData goroutine (wire sender of an upload) under real time over a queue of encoded
+// blocks, some of them larger than the current chunk size so that they are re-split; the acknowledgement window
+// is emptied one entry at a time at scripted slots (that is what lets the sender go on), pause / resume / stop and
+// changes of the chunk size at scripted slots.  Every chunk and keep-alive on the wire with its time against
+// the extracted model (Model/PauseSend.v); direct oracle: no file data on the wire while pausing.
+
+type c18sEv struct {
+	slot int
+	kind byte // B T P R S
+	arg  int
+	at   int
+}
+
+type c18sScn struct {
+	family  string
+	proto   int
+	buf     int
+	blocks  []int
+	horizon int
+	evs     []c18sEv
+	log     []string // ms:class
+	acks    []int64
+	outcome string
+}
+
+func (s *c18sScn) sched() string {
+	parts := make([]string, len(s.evs))
+	for i, e := range s.evs {
+		if e.kind == 'B' {
+			parts[i] = fmt.Sprintf("%d:B:%d", e.slot, e.arg)
+		} else {
+			parts[i] = fmt.Sprintf("%d:%c", e.slot, e.kind)
+		}
+	}
+	if len(parts) == 0 {
+		return "-"
+	}
+	return strings.Join(parts, ",")
+}
+
+func c18sRun(s *c18sScn) {
+	v := trzsz.VerifNewPauseTransfer(s.proto, 1)
+	start := time.Now()
+	d := v.StartSendData(int64(s.buf), s.blocks)
+	for i, e := range s.evs {
+		c18SleepUntil(start, e.slot)
+		s.evs[i].at = int(time.Since(start) / time.Millisecond)
+		switch e.kind {
+		case 'B':
+			d.SetBufSize(int64(e.arg))
+		case 'T':
+			s.acks = append(s.acks, d.TakeAck())
+		case 'P':
+			v.Pause()
+		case 'R':
+			v.Resume()
+		case 'S':
+			v.Stop(false)
+		}
+	}
+	c18SleepUntil(start, s.horizon)
+	time.Sleep(5 * time.Millisecond)
+	s.outcome = d.Outcome()
+	lg := v.WriteLog()
+	for i := 0; i < len(lg); i++ {
+		w := lg[i]
+		ms := int(w.At.Sub(start) / time.Millisecond)
+		if ms > s.horizon*c18Unit {
+			break
+		}
+		cl := "?"
+		switch {
+		case bytes.Equal(w.Data, []byte("#DATA:=\n")):
+			cl = "K"
+		case bytes.Equal(w.Data, []byte("#DATA:")) && i+2 < len(lg) && bytes.Equal(lg[i+2].Data, []byte("\n")):
+			cl = fmt.Sprintf("S%d", len(lg[i+1].Data))
+			i += 2
+		case bytes.HasPrefix(w.Data, []byte("#DATA:")) && bytes.HasSuffix(w.Data, []byte("\n")):
+			cl = fmt.Sprintf("W%d", len(w.Data)-7)
+		}
+		s.log = append(s.log, fmt.Sprintf("%d:%s", ms, cl))
+	}
+	v.Resume()
+	d.Cancel()
+}
+
+func genPauseSend(c *ctx) {
+	var scns []*c18sScn
+	add := func(family string, proto, buf int, blocks []int, horizon int, evs ...c18sEv) {
+		sort.SliceStable(evs, func(i, j int) bool { return evs[i].slot < evs[j].slot })
+		scns = append(scns, &c18sScn{family: family, proto: proto, buf: buf, blocks: blocks, horizon: horizon, evs: evs})
+	}
+	B := func(slot, n int) c18sEv { return c18sEv{slot: slot, kind: 'B', arg: n} }
+	T := func(slot int) c18sEv { return c18sEv{slot: slot, kind: 'T'} }
+	P := func(slot int) c18sEv { return c18sEv{slot: slot, kind: 'P'} }
+	R := func(slot int) c18sEv { return c18sEv{slot: slot, kind: 'R'} }
+	S := func(slot int) c18sEv { return c18sEv{slot: slot, kind: 'S'} }
+	rep8 := func(n, k int) []int {
+		l := make([]int, k)
+		for i := range l {
+			l[i] = n
+		}
+		return l
+	}
+	// the sender fills the window at once (5 entries pushed, a 6th chunk written and waiting for room); from then on every
+	// take (0 mod 10) lets it write one more chunk; pauses and resumes at 5 mod 10
+	for _, proto := range []int{3, 4} {
+		// the chunk size shrinks while blocks are queued: the 7th block is cut into four pieces; the pause begins after its first
+		add("resplit-pause", proto, 10240, rep8(10240, 8), 140, B(2, 2560), T(10), P(15), T(20), R(55), T(70), T(80), T(90), T(100), T(110))
+		// ... after its second piece, and a second pause inside the same block
+		add("resplit-two-pauses", proto, 10240, rep8(10240, 8), 170, B(2, 2560), T(10), T(20), P(25), T(30), R(55), T(70), P(75), T(80), R(115), T(130), T(140))
+		// the chunk size changes again between two pieces of one block
+		add("resplit-size-changes", proto, 10240, rep8(10240, 8), 150, B(2, 2560), T(10), B(12, 5120), P(15), T(20), R(45), T(60), B(62, 1024), T(70), T(80), T(90), T(100))
+		// no re-splitting: a pause between whole frames
+		add("whole-pause", proto, 10240, rep8(10240, 8), 100, T(10), P(15), T(20), R(55), T(70), T(80))
+		// the zero-length finish chunk waits as well
+		add("finish-chunk-pause", proto, 4096, []int{4096, 4096, 4096, 4096, 4096, 4096, 100, 0}, 110, T(10), P(15), T(20), R(55), T(70), T(80), T(90), T(100))
+		// stop while pausing inside a split block: nothing more, the goroutine ends
+		add("resplit-stop-while-paused", proto, 10240, rep8(10240, 8), 90, B(2, 2560), T(10), P(15), T(20), S(45), T(60), T(70))
+		// never resumed within the window
+		add("resplit-never-resumed", proto, 10240, rep8(10240, 8), 80, B(2, 3000), T(10), P(15), T(20), T(30))
+	}
+	// protocol 2 has no pause handling: the data goes on (by design)
+	add("proto2-no-gate", 2, 10240, rep8(10240, 8), 60, B(2, 2560), T(10), P(15), T(20), T(30), R(45), T(50))
+	for i := 0; i < c.pick(12, 80); i++ {
+		proto := 3 + c.rng.Intn(2)
+		nb := 7 + c.rng.Intn(4)
+		blocks := make([]int, nb)
+		for j := range blocks {
+			blocks[j] = []int{10240, 10240, 8000, 4096}[c.rng.Intn(4)]
+		}
+		if c.rng.Intn(2) == 0 {
+			blocks[nb-1] = 0
+		}
+		var evs []c18sEv
+		pausing := false
+		lastR := -100
+		slot := 0
+		if c.rng.Intn(3) != 0 {
+			evs = append(evs, B(2, []int{2560, 3000, 5120, 1024}[c.rng.Intn(4)]))
+		}
+		for slot < 160 {
+			slot += 10
+			switch r := c.rng.Intn(10); {
+			case r < 5:
+				evs = append(evs, T(slot))
+			case r < 6:
+				evs = append(evs, B(slot+2, []int{1024, 2560, 4096, 10240, 20480}[c.rng.Intn(5)]))
+			case r < 8 && !pausing && slot+5 > lastR+15:
+				pausing = true
+				evs = append(evs, P(slot+5))
+			case r < 10 && pausing:
+				pausing = false
+				lastR = slot + 5
+				evs = append(evs, R(slot+5))
+			}
+		}
+		add("random", proto, 10240, blocks, 190, evs...)
+	}
+	// the end-to-end re-split cases (below) run meanwhile: they spend most of their time waiting for a 3.2 s stall
+	work, _ := os.MkdirTemp("", "e2e_resplit_")
+	defer os.RemoveAll(work)
+	e2eCases := c18rPrepare(c, work)
+	e2eDone := make(chan struct{})
+	go func() { defer close(e2eDone); c18rRun(e2eCases) }()
+	const attempts = 3
+	alts := make([][]*c18sScn, len(scns))
+	parallelDo(len(scns), len(scns), func(i int) { c18sRun(scns[i]) })
+	for a := 1; a < attempts; a++ {
+		wave := make([]*c18sScn, len(scns))
+		for i, s := range scns {
+			cp := *s
+			cp.log, cp.acks = nil, nil
+			cp.evs = append([]c18sEv(nil), s.evs...)
+			wave[i] = &cp
+			alts[i] = append(alts[i], &cp)
+		}
+		parallelDo(len(wave), len(wave), func(i int) { c18sRun(wave[i]) })
+	}
+	for si, s := range scns {
+		c.count("family:" + s.family)
+		c.count("outcome:" + s.outcome)
+		nontrivial := false
+		for _, e := range s.evs {
+			if e.kind == 'P' {
+				nontrivial = true
+			}
+		}
+		obs := func(s *c18sScn) (string, string) {
+			m, a := "-", "-"
+			if len(s.log) > 0 {
+				m = strings.Join(s.log, ",")
+			}
+			if len(s.acks) > 0 {
+				parts := make([]string, len(s.acks))
+				for i, x := range s.acks {
+					parts[i] = fmt.Sprint(x)
+				}
+				a = strings.Join(parts, ",")
+			}
+			return m, a
+		}
+		measured, acks := obs(s)
+		for _, a := range alts[si] {
+			m, k := obs(a)
+			measured += "|" + m
+			acks += "|" + k
+		}
+		bl := make([]string, len(s.blocks))
+		split := 0
+		for i, x := range s.blocks {
+			bl[i] = fmt.Sprint(x)
+		}
+		for _, l := range s.log {
+			if strings.Contains(l, ":S") {
+				split++
+			}
+		}
+		if split > 0 {
+			c.count("re-split-chunks-on-the-wire")
+		}
+		c.emit(nontrivial, "ps_send", "match", fmt.Sprint(c18Unit), fmt.Sprint(s.proto), fmt.Sprint(s.buf), strings.Join(bl, ","),
+			fmt.Sprint(s.horizon), s.sched(), measured, acks, fmt.Sprint(c18Tol))
+		// direct oracle on every run: while pausing (protocol >= 3) no file data goes on the wire -- whole frame,
+		// piece of a re-split block or finish chunk; in this harness a write takes no time, so not even the
+		// "one chunk already past its check"
+		if s.proto >= 3 {
+			for _, run := range append([]*c18sScn{s}, alts[si]...) {
+				c18sNoDataWhilePaused(c, run)
+			}
+		}
+	}
+	<-e2eDone
+	c18rReport(c, e2eCases)
+}
+
+func c18sNoDataWhilePaused(c *ctx, s *c18sScn) {
+	for i, e := range s.evs {
+		if e.kind != 'P' {
+			continue
+		}
+		end := s.horizon * c18Unit
+		for _, f := range s.evs[i+1:] {
+			if f.kind == 'R' {
+				end = f.at
+				break
+			}
+		}
+		for _, l := range s.log {
+			parts := strings.SplitN(l, ":", 2)
+			ms, _ := strconv.Atoi(parts[0])
+			if parts[1] != "K" && ms > e.at+5 && ms < end-1 {
+				m := strings.Join(s.log, ",")
+				c.violate("pausesend:data-while-paused:"+s.family, "the paused side wrote file data while pausing (a chunk behind the pause check)",
+					fmt.Sprintf("pipelineSendData protocol=%d chunk size %d blocks %v schedule(slot=%dms) %s: paused at %d ms, resumed at %d ms, wire %s",
+						s.proto, s.buf, s.blocks, c18Unit, s.sched(), e.at, end, m))
+				return
+			}
+		}
+	}
+}
+
+// ---------------------------------------------------------------------------------------------
+// the end-to-end part of group pausesend ("e2e-pause-resplit" in DESIGN 10.20): real client (filter) uploading to a real trz child with a chunk-size limit of 10 KB.  The
+// acknowledgements stall once for 3.2 s (timeout 6 s): the first late one makes pipelineRecvAck divide the chunk size
+// by three, and the encoded blocks that are still queued are now cut into pieces.  Ctrl-C is typed while the
+// header of the FIRST piece of such a block is being written (the write is held until the pause has registered);
+// "continue" follows 0.5 s later.  Oracles: between the pause and the resume the client starts at most one more
+// DATA chunk (none is expected: the piece in hand is already past its check), the transfer is not hung, ends in
+// success and the trees are identical.
+
+var c18rHeaderOnly = regexp.MustCompile(`^#DATA:[0-9]*\n?$`)
+
+type c18rCase struct {
+	cfg     e2eCfg
+	src     string
+	root    string
+	desc    string
+	bad     []string
+	outcome string
+	keep    int
+	pieces  int
+	after   int
+	paused  bool
+}
+
+// c18rPrepare builds the cases (all randomness is drawn here), c18rRun runs them, c18rReport reports them.
+func c18rPrepare(c *ctx, work string) []*c18rCase {
+	type rc = c18rCase
+	var cases []*rc
+	n := 0
+	for rep := 0; rep < c.pick(1, 3); rep++ {
+		for _, proto := range []int{3, 4} {
+			for _, binary := range []bool{false, true} {
+				root := filepath.Join(work, fmt.Sprintf("r%d", n))
+				n++
+				os.MkdirAll(filepath.Join(root, "s"), 0755)
+				os.MkdirAll(filepath.Join(root, "d"), 0755)
+				src := filepath.Join(root, "s", "queued.bin")
+				os.WriteFile(src, fillBytes(rand.New(rand.NewSource(c.rng.Int63())), 180000+c.rng.Intn(40000), 0), 0644)
+				cfg := e2eCfg{upload: true, binary: binary, proto: proto, timeout: 6, quiet: true, bufsize: "10k", compress: "no",
+					deadline: 60 * time.Second}
+				cases = append(cases, &rc{cfg: cfg, src: src, root: root,
+					desc: fmt.Sprintf("3.2 s ack stall, then pause at the first piece of a re-split block (timeout 6s) :: %s", describeCfg(cfg))})
+			}
+		}
+	}
+	return cases
+}
+
+func c18rRun(cases []*c18rCase) {
+	parallelDo(len(cases), len(cases), func(i int) {
+		p := cases[i]
+		cfg := p.cfg
+		var run *e2eRun
+		var runMu sync.Mutex
+		cfg.onStart = func(r *e2eRun) { runMu.Lock(); run = r; runMu.Unlock() }
+		var acks, stalled, from, to atomic.Int64
+		var once sync.Once
+		var mu sync.Mutex
+		var starts []int64 // unix nanos of every DATA chunk the client begins to write
+		cfg.hook = func(d, i int, b []byte) e2eAction {
+			now := time.Now().UnixNano()
+			if d == dirS2C {
+				if bytes.Contains(b, []byte("#SUCC:")) && bytes.Contains(b, []byte("/")) {
+					if acks.Add(1) == 3 {
+						time.Sleep(3200 * time.Millisecond) // this acknowledgement and everything behind it arrives late
+						stalled.Store(1)
+					}
+				}
+				return e2eAction{}
+			}
+			if bytes.HasPrefix(b, []byte("#DATA:=")) {
+				p.keep++
+				return e2eAction{}
+			}
+			if !bytes.HasPrefix(b, []byte("#DATA:")) {
+				return e2eAction{}
+			}
+			mu.Lock()
+			starts = append(starts, now)
+			mu.Unlock()
+			if stalled.Load() == 1 && c18rHeaderOnly.Match(b) {
+				p.pieces++
+				once.Do(func() {
+					var r *e2eRun
+					for k := 0; k < 3000 && r == nil; k++ {
+						runMu.Lock()
+						r = run
+						runMu.Unlock()
+						if r == nil {
+							time.Sleep(time.Millisecond)
+						}
+					}
+					if r == nil || !r.filter.IsTransferringFiles() {
+						return
+					}
+					p.paused = true
+					r.cliIn.Write([]byte{0x03}) // Ctrl-C: asks stop/continue, pauses the transfer
+					from.Store(time.Now().UnixNano())
+					time.Sleep(150 * time.Millisecond) // the pause registers while this header is held
+					go func() {
+						time.Sleep(500 * time.Millisecond)
+						to.Store(time.Now().UnixNano())
+						r.cliIn.Write([]byte{'j'})
+						time.Sleep(30 * time.Millisecond)
+						r.cliIn.Write([]byte{'j'}) // "Continue to transfer remaining files"
+						time.Sleep(30 * time.Millisecond)
+						r.cliIn.Write([]byte{'\r'})
+					}()
+				})
+			}
+			return e2eAction{}
+		}
+		dest := filepath.Join(p.root, "d")
+		r := runTransfer(cfg, []string{p.src}, dest)
+		f, t := from.Load(), to.Load()
+		if t == 0 {
+			t = time.Now().UnixNano()
+		}
+		mu.Lock()
+		for _, x := range starts {
+			if f != 0 && x > f && x < t {
+				p.after++
+			}
+		}
+		mu.Unlock()
+		if p.after > 1 {
+			p.bad = append(p.bad, fmt.Sprintf("data-while-paused: the client began %d DATA chunks between the pause and the resume (pieces of a re-split block behind the pause check)", p.after))
+		}
+		shown := r.serverOut + r.termOut
+		names, saved := parseSaved(shown)
+		switch {
+		case r.hung || !r.clientDone || !r.serverExited:
+			p.outcome = "hung"
+			p.bad = append(p.bad, fmt.Sprintf("hang: clientDone=%v serverExited=%v tail=%q", r.clientDone, r.serverExited, tailStr(shown, 200)))
+		case saved:
+			p.outcome = "success"
+			if len(names) != 1 {
+				p.bad = append(p.bad, fmt.Sprintf("success-wrong: names %v", names))
+			} else if d := sameTree(p.src, filepath.Join(dest, names[0])); len(d) > 0 {
+				p.bad = append(p.bad, "success-wrong: "+strings.Join(d, ";"))
+			}
+		default:
+			p.outcome = "error"
+			p.bad = append(p.bad, fmt.Sprintf("short-pause-failed: a pause of 0.5 s after a 3.2 s stall (timeout 6 s) ended in an error; server said %q; upload result %v",
+				tailStr(r.serverOut, 160), r.uploadErr))
+		}
+	})
+}
+
+func c18rReport(c *ctx, cases []*c18rCase) {
+	for _, p := range cases {
+		nontrivial := p.paused && p.pieces > 0 && p.keep > 0
+		c.note(nontrivial, fmt.Sprintf("%s => %s pieces=%d keepalives=%d chunks-begun-while-paused=%d", p.desc, p.outcome, p.pieces, p.keep, p.after))
+		c.count("resplit-e2e-outcome:" + p.outcome)
+		if p.pieces > 0 {
+			c.count("re-split-observed")
+		}
+		if p.paused {
+			c.count("paused-inside-a-split-block")
+		}
+		if len(p.bad) > 0 {
+			key := "pause:" + strings.SplitN(p.bad[0], ":", 2)[0] + "-resplit"
+			c.violate(key, "pausing inside a re-split block violated the pause contract", p.desc+" :: "+strings.Join(p.bad, "; "))
+		}
 	}
 }
